@@ -100,6 +100,7 @@ type M struct {
 	rootMemo         map[string][2]any
 	prop             string
 	perFile          int // events per shard file
+	sizeIdx          int // position in the walk over power-of-two preimage sizes
 	giants, giantMax int // calls with a >= 64 KiB tag made / allowed in this run
 	files            []string
 	dir              string
